@@ -10,7 +10,7 @@
        independent reader, whenever fewer than 100 pairs of atoms are joined by ring bonds. *)
 From Coq Require Import String List ZArith NArith Bool.
 Import ListNotations.
-From Selfies Require Import Base Generated Lex Atoms Decoder Config AlphaSpec AlphaFacts DecoderInv DecoderSum TokFacts DecFacts DeriveOk AlphaClosure Reader WriterFinal.
+From Selfies Require Import Base Generated Lex Atoms Decoder Config AlphaSpec AlphaFacts DecoderInv DecoderSum TokFacts DecFacts DeriveOk AlphaClosure Reader WriterFinal RingCount.
 Local Open Scope string_scope.
 
 Theorem C07_alphabet_is_documented_set : forall t y, In y (compute_alphabet t) <-> in_alphabet_spec t y.
@@ -58,6 +58,19 @@ Proof.
   apply tokenize_all_ok. exact (alphabet_string_digits_ok T HT xs Hxs).
 Qed.
 
+(* ... with the hypothesis on the input alone: fewer than 100 ring symbols (proofs/RingCount.v) *)
+Theorem C07_alphabet_strings_valid_from_string : forall T xs attribute out maps,
+  table_ok T -> Forall (fun x => In x (compute_alphabet T)) xs ->
+  (ring_symbol_count (concat xs) false < 100)%nat ->
+  decoder T (concat xs) false attribute = Ok (out, maps) ->
+  valid_smiles_under T out = true.
+Proof.
+  intros T xs attribute out maps HT Hxs Hr E.
+  apply (decoder_output_valid T (concat xs) false attribute out maps (proj1 HT)); [|exact E|].
+  - apply tokenize_all_ok. exact (alphabet_string_digits_ok T HT xs Hxs).
+  - intros m Hm. apply PeanoNat.Nat.le_lt_trans with (ring_symbol_count (concat xs) false); [exact (ring_pairs_le_symbols _ _ _ _ _ Hm)|exact Hr].
+Qed.
+
 (* the hypothesis is met by the presets (regenerated from the source on this run) *)
 Example C07_presets_accepted : forall name T, In (name, T) preset_constraints -> table_ok T.
 Proof.
@@ -72,3 +85,4 @@ Print Assumptions C07_charged_symbols_in_grammar.
 Print Assumptions C07_alphabet_strings_decode.
 Print Assumptions C07_alphabet_strings_obey_table_partial.
 Print Assumptions C07_alphabet_strings_valid.
+Print Assumptions C07_alphabet_strings_valid_from_string.
